@@ -108,7 +108,10 @@ def judge_volumes(P, result, full):
 def mikro_volumes_are_equal_shares(self, result):
     mon = "C15.volumes"
     try:
-        n = self.N_points
+        n = int(self.N_points)
+        case = REC.case if isinstance(REC.case, dict) else {}
+        if isinstance(case.get("N"), int) and "alg" in case:
+            n = 1 if str(case["alg"]).startswith("zero") else case["N"]      # the N the workload asked for, not what the object believes
         want = (4 * np.pi / n) if self.dimensions == 3 else (HALF / n)
         v = np.asarray(result, dtype=float)
         REC.check(mon, v.shape == (n,) and np.allclose(v, want, rtol=1e-13), {"N": n, "dimensions": self.dimensions, "volumes": v, "expected": want})
@@ -123,12 +126,15 @@ def install():
     attach.ensure(voronoi.MikroVoronoi, "get_voronoi_volumes", mikro_volumes_are_equal_shares)
 
 
-def drive(alg, N):
+NFORMS = {"int": int, "int64": np.int64, "int32": np.int32, "0d_array": lambda n: np.asarray(n), "squeezed": lambda n: np.squeeze(np.array([n]))}
+
+
+def drive(alg, N, nform="int"):
     from molgri.space.rotobj import SphereGrid3DFactory, SphereGrid4DFactory
-    REC.begin_case({"alg": alg, "N": N}, cls=f"alg={alg}", sample=(N == 8))
+    REC.begin_case({"alg": alg, "N": N, "nform": nform}, cls=[f"alg={alg}", f"N held as {nform}"], sample=(N == 8))
     try:
         F = SphereGrid3DFactory if alg in ("ico", "cube3D", "randomS") else SphereGrid4DFactory
-        g = F.create(alg_name=alg, N=N)
+        g = F.create(alg_name=alg, N=NFORMS[nform](N))
         before = REC.monitors["C15.volumes"]["calls"]
         v = g.get_spherical_voronoi().get_voronoi_volumes()
         if alg in ("cube4D", "randomQ") and N >= 4 and type(g.get_spherical_voronoi()).__name__ != "HalfRotobjVoronoi":
@@ -181,12 +187,17 @@ def shards(tier, seed):
 
 def run_shard(spec):
     install()
+    forms = list(NFORMS)
     for alg, N in spec["jobs"]:
-        drive(alg, N)
+        if N < 4:
+            for nform in forms:          # the equal-share grids are cheap: N in every integer form a caller may hold it in
+                drive(alg, N, nform)
+        else:
+            drive(alg, N, forms[(N + len(alg)) % len(forms)])
     if spec.get("consumers"):
         drive_consumers()
 
 
 def replay(case):
     install()
-    drive(case["alg"], case["N"])
+    drive(case["alg"], case["N"], case.get("nform", "int"))
